@@ -13,6 +13,7 @@ G_Configs ==
     Cfg("plain", FALSE, TRUE, 2, 8, 1, 1, 2),         \* vdifc, lower_sideband=True
     Cfg("plain", TRUE, FALSE, 2, 8, 1, 1, 2),         \* vdifr   VDIF real
     Cfg("plain", TRUE, TRUE, 2, 8, 1, 1, 2),          \* vdifr, lower_sideband=True
+    Cfg("plain", TRUE, FALSE, 15, 1, 5, 1, 4),        \* realodd real DADA, 75 raw samples (odd), scale 1
     Cfg("plain", FALSE, FALSE, 2, 1, 4, 2, 1),        \* dada    4 files of one frame
     Cfg("guppi", FALSE, FALSE, 2, 2, 3, 2, 4),        \* guppi   3 files x 2 frames
     Cfg("guppi", FALSE, TRUE, 2, 2, 3, 2, 4),         \* guppil  OBSBW < 0
